@@ -167,7 +167,7 @@ struct C11 : Scenario {
         kw_histogram(m, r.counters);
         RunCfg cfg; cfg.physics_seed = static_cast<std::uint64_t>(plan.geti("physics_seed")); cfg.esmry = !m.fmtout;
         for (size_t k = 0; k < plan.at("ministeps").size(); ++k) { std::vector<double> f; for (size_t q = 0; q < plan.at("ministeps")[k].size(); ++q) f.push_back(plan.at("ministeps")[k][q].as_d()); cfg.ministeps.push_back(f); }
-        cfg.wall_advance = {20.0};
+        cfg.wall_advance = {20.0}; cfg.wtest_activity = true;
         const std::string deck = deck_text(m);
         fs::note("deck", deck);
         if (getenv("VERIF_DUMP_DECK")) fs::spit("/tmp/deckA.DATA", deck);
